@@ -12,8 +12,14 @@
 
   The maintenance side: `FrameX` = `Frame` + every queued hit is either still queued or has
   been applied (`Applied`) + a map entry that leaves was expired, measured after all queued
-  reads had been applied (`kept`).  `NoSizeEvict p s` says that maintenance in state `s` does
-  not evict or reject for size; without `max_capacity` it holds in every state.
+  reads had been applied (`kept`).  `SyncOk p s` / `MaintOk p s op` say that the maintenance
+  runs started in state `s` (by operation `op`) satisfy `FrameX`, i.e. do not evict or reject
+  for size.  Without `max_capacity` that holds in every state (`maintOk_none`).  With
+  `max_capacity = c` it holds along every history whose inserts weigh at most `c` in total
+  (`RoomInv`): a ghost budget per entry info (`BInv`: the weight stored in the info, the policy
+  weight of the map's entry and the weight carried by queued upserts are all at most the total
+  weight inserted under that info) bounds the run-local weighted size through the counters
+  invariant `CInv.wsum` of `SyncCounters.lean`.
 -/
 import MiniMoka.Lemmas.SyncKeys
 import MiniMoka.Lemmas.SyncCounters
@@ -1077,7 +1083,7 @@ theorem completeS_inv {p : Params} {s s0 : SState} {r : Ref} (hc : CompleteS p s
     rw [hn]; exact hc.gone k' re' h ha hm hk'
 
 theorem invalidate_complete {p : Params} {s : SState} {r : Ref} (hcr : CoupledRS p s r) (k : Nat)
-    (hX : SyncOk p { s with map := AL.erase s.map k }) :
+    (hX : ∀ ve, AL.get? s.map k = some ve → SyncOk p { s with map := AL.erase s.map k }) :
     CompleteS p (invalidate p s k) (refStep .sync r (.inv k) .ok) := by
   have hr : refStep .sync r (.inv k) .ok = { r with ents := mapEnts (killKey k) r.ents } := rfl
   rw [hr]
@@ -1094,7 +1100,7 @@ theorem invalidate_complete {p : Params} {s : SState} {r : Ref} (hcr : CoupledRS
     have hok := refOkS_step hcr.ok (.inv k) .ok
     rw [hr] at hok
     exact completeS_pushW (completeS_frameX h0 hok (AL.nodup_erase k hcr.sound.kn)
-      (housekeepW_frameX hX)) _
+      (housekeepW_frameX (hX ve hk))) _
 
 theorem invalidateAll_complete {p : Params} {s : SState} {r : Ref} (hcr : CoupledRS p s r) :
     CompleteS p (invalidateAll s) (refStep .sync r .invAll .ok) := by
@@ -1170,7 +1176,7 @@ theorem adv_complete {p : Params} {s : SState} {r : Ref} (hc : CompleteS p s r) 
 def MaintOk (p : Params) (s : SState) : Op → Prop
   | .ins k v => SyncOk p (insertMid p s k v).1
   | .get _ => SyncOk p s
-  | .inv k => SyncOk p { s with map := AL.erase s.map k }
+  | .inv k => ∀ ve, AL.get? s.map k = some ve → SyncOk p { s with map := AL.erase s.map k }
   | .sync => FrameX p s (syncRun p s)
   | _ => True
 
@@ -1179,6 +1185,7 @@ theorem maintOk_none {p : Params} (hq : NoQuirks p) (hcap : p.cap = none) (s : S
   cases op <;> first
     | exact syncOk_none hq hcap _
     | exact syncRun_frameX_none hq hcap _
+    | exact fun _ _ => syncOk_none hq hcap _
     | exact True.intro
 
 /-- One step: the lookup returns everything the reference requires, and the coupling is
@@ -1255,6 +1262,948 @@ theorem exactC03_run_sync {p : Params} (hq : NoQuirks p) (I : SState → List Op
       · exact absurd h hns
       · rw [Bool.and_eq_true]
         exact ⟨h1, ih _ _ (hstep s op rest hi) h2⟩
+
+/-! ### budgets: how much weight has been inserted under each entry info -/
+
+def budOf (bl : List (Nat × Nat)) (i : Nat) : Nat := (AL.get? bl i).getD 0
+
+def budTotal : List (Nat × Nat) → Nat
+  | [] => 0
+  | (_, x) :: rest => x + budTotal rest
+
+theorem budOf_nil (i : Nat) : budOf [] i = 0 := rfl
+
+theorem budOf_cons (a x : Nat) (rest : List (Nat × Nat)) (i : Nat) :
+    budOf ((a, x) :: rest) i = if a = i then x else budOf rest i := by
+  unfold budOf
+  rw [AL.get?_cons]
+  by_cases h : a = i <;> simp [h]
+
+theorem sum_map_le {α : Type} (f g : α → Nat) : ∀ (l : List α), (∀ a ∈ l, f a ≤ g a) →
+    (l.map f).sum ≤ (l.map g).sum := by
+  intro l
+  induction l with
+  | nil => intro _; exact Nat.le_refl _
+  | cons a l ih =>
+    intro h
+    simp only [List.map_cons, List.sum_cons]
+    exact Nat.add_le_add (h a List.mem_cons_self) (ih (fun b hb => h b (List.mem_cons_of_mem _ hb)))
+
+/-- Distinct infos together hold at most the total budget. -/
+theorem sum_budOf_le : ∀ (bl : List (Nat × Nat)) (K : List Nat), K.Nodup →
+    (K.map (budOf bl)).sum ≤ budTotal bl := by
+  intro bl
+  induction bl with
+  | nil =>
+    intro K _
+    have : ∀ K : List Nat, (K.map (budOf [])).sum = 0 := by
+      intro K; induction K with
+      | nil => rfl
+      | cons a K ih => simp only [List.map_cons, List.sum_cons, ih, budOf_nil]
+    rw [this]; exact Nat.le_refl _
+  | cons ax rest ih =>
+    obtain ⟨a, x⟩ := ax
+    intro K hK
+    by_cases ha : a ∈ K
+    · have hp := List.perm_cons_erase ha
+      rw [((hp.map (budOf ((a, x) :: rest))).sum_nat)]
+      simp only [List.map_cons, List.sum_cons, budTotal]
+      have h1 : budOf ((a, x) :: rest) a = x := by rw [budOf_cons, if_pos rfl]
+      have h2 : (K.erase a).map (budOf ((a, x) :: rest)) = (K.erase a).map (budOf rest) := by
+        apply List.map_congr_left
+        intro i hi
+        have := (hK.mem_erase_iff.mp hi).1
+        rw [budOf_cons, if_neg (fun e => this e.symm)]
+      rw [h1, h2]
+      exact Nat.add_le_add_left (ih _ (hK.erase a)) _
+    · have h2 : K.map (budOf ((a, x) :: rest)) = K.map (budOf rest) := by
+        apply List.map_congr_left
+        intro i hi
+        rw [budOf_cons, if_neg (fun (e : a = i) => ha (by rw [e]; exact hi))]
+      rw [h2]
+      simp only [budTotal]
+      exact Nat.le_trans (ih K hK) (Nat.le_add_left _ _)
+
+/-- Charging `w` more to info `i`. -/
+def charge (bl : List (Nat × Nat)) (i w : Nat) : List (Nat × Nat) := AL.put bl i (budOf bl i + w)
+
+theorem budOf_charge (bl : List (Nat × Nat)) (i w j : Nat) :
+    budOf (charge bl i w) j = if i = j then budOf bl i + w else budOf bl j := by
+  unfold charge budOf
+  rw [AL.get?_put]
+  by_cases h : i = j <;> simp [h]
+
+theorem budOf_charge_ge (bl : List (Nat × Nat)) (i w j : Nat) :
+    budOf bl j ≤ budOf (charge bl i w) j := by
+  rw [budOf_charge]
+  by_cases h : i = j
+  · rw [if_pos h, h]; exact Nat.le_add_right _ _
+  · rw [if_neg h]; exact Nat.le_refl _
+
+theorem budTotal_put : ∀ (bl : List (Nat × Nat)) (i x : Nat),
+    budTotal (AL.put bl i x) + budOf bl i ≤ budTotal bl + x := by
+  intro bl
+  induction bl with
+  | nil => intro i x; simp [AL.put, budTotal, budOf_nil]
+  | cons ay rest ih =>
+    obtain ⟨a, y⟩ := ay
+    intro i x
+    rw [AL.put_cons, budOf_cons]
+    by_cases h : a = i
+    · simp only [h, if_true, budTotal]; omega
+    · simp only [h, if_false, budTotal]
+      have := ih i x
+      omega
+
+theorem budTotal_charge (bl : List (Nat × Nat)) (i w : Nat) :
+    budTotal (charge bl i w) ≤ budTotal bl + w := by
+  have := budTotal_put bl i (budOf bl i + w)
+  unfold charge
+  omega
+
+/-! ### the budget invariant -/
+
+/-- Every weight the maintenance may account for info `i` — the one stored in the info, the
+policy weight of the map's entry, the weight carried by a queued upsert — is at most the budget
+of `i`. -/
+structure BInv (p : Params) (s : SState) (Q : List WOp) (bl : List (Nat × Nat)) : Prop where
+  wt : ∀ i, (getInfo s i).weight ≤ budOf bl i
+  mp : ∀ k ve, AL.get? s.map k = some ve → p.weigh k ve.val ≤ budOf bl ve.info
+  up : ∀ k h ve o w, WOp.upsert k h ve o w ∈ Q → w ≤ budOf bl ve.info
+
+theorem BInv.of {p : Params} {s s' : SState} {Q Q' : List WOp} {bl : List (Nat × Nat)}
+    (b : BInv p s Q bl)
+    (hm : ∀ k ve, AL.get? s'.map k = some ve → AL.get? s.map k = some ve)
+    (hw : ∀ i, (getInfo s' i).weight ≤ budOf bl i) (hQ : ∀ op, op ∈ Q' → op ∈ Q) :
+    BInv p s' Q' bl :=
+  ⟨hw, fun k ve hk => b.mp k ve (hm k ve hk), fun k h ve o w hin => b.up k h ve o w (hQ _ hin)⟩
+
+theorem BInv.same {p : Params} {s s' : SState} {Q : List WOp} {bl : List (Nat × Nat)}
+    (b : BInv p s Q bl) (hs : Same s s') : BInv p s' Q bl :=
+  b.of (fun k ve hk => by rw [hs.map] at hk; exact hk)
+    (fun i => by rw [hs.weight]; exact b.wt i) (fun _ h => h)
+
+theorem prob_infos_nodup {s : SState} (h : NodesCore s) : (s.prob.map (·.info)).Nodup :=
+  nodup_map_of (·.info) (·.id) s.prob h.probIds (fun a ha b hb e => by
+    have h1 := h.probOwn a ha
+    have h2 := h.probOwn b hb
+    have e' : a.info = b.info := e
+    rw [e', h2] at h1
+    exact (Option.some.inj h1).symm)
+
+theorem wsumOf_le_bud {p : Params} {s : SState} {Q : List WOp} {bl : List (Nat × Nat)}
+    (b : BInv p s Q bl) : wsumOf s ≤ ((s.prob.map (·.info)).map (budOf bl)).sum := by
+  unfold wsumOf
+  rw [List.map_map]
+  exact sum_map_le _ _ _ (fun n _ => b.wt n.info)
+
+/-- The run-local weighted size plus the budget of an info that is not admitted stays within
+the total budget. -/
+theorem cws_bound {p : Params} {s : SState} {Q : List WOp} {bl : List (Nat × Nat)} {c : Nat}
+    (hs : Safe s) (hw : s.cws = wsumOf s) (b : BInv p s Q bl) (hc : budTotal bl ≤ c) {j : Nat}
+    (hna : (getInfo s j).admitted = false) : s.cws + budOf bl j ≤ c := by
+  have hnd := prob_infos_nodup hs.toNodesCore
+  have hj : j ∉ s.prob.map (·.info) := by
+    intro hm
+    obtain ⟨n, hn, e⟩ := List.mem_map.mp hm
+    have h1 := hs.probOwn n hn
+    have e' : n.info = j := e
+    rw [e'] at h1
+    have := (hs.admIff j).mpr (by rw [h1]; rfl)
+    rw [hna] at this; cases this
+  have h1 := wsumOf_le_bud b
+  have h2 := sum_budOf_le bl (j :: s.prob.map (·.info)) (List.nodup_cons.mpr ⟨hj, hnd⟩)
+  simp only [List.map_cons, List.sum_cons] at h2
+  omega
+
+theorem cws_le {p : Params} {s : SState} {Q : List WOp} {bl : List (Nat × Nat)} {c : Nat}
+    (hs : Safe s) (hw : s.cws = wsumOf s) (b : BInv p s Q bl) (hc : budTotal bl ≤ c) :
+    s.cws ≤ c := by
+  have h1 := wsumOf_le_bud b
+  have h2 := sum_budOf_le bl (s.prob.map (·.info)) (prob_infos_nodup hs.toNodesCore)
+  omega
+
+/-! ### `apply_writes` with room -/
+
+theorem currentWeight_le {p : Params} (hq : NoQuirks p) {s : SState} {Q : List WOp} {key : Nat}
+    {hash : UInt64} {ve : VE} {oldW newW : Nat} {bl : List (Nat × Nat)}
+    (b : BInv p s (WOp.upsert key hash ve oldW newW :: Q) bl) :
+    currentWeight p s key ve newW ≤ budOf bl ve.info := by
+  have hd10 : p.q.d10 = false := by rw [hq]
+  have hup := b.up key hash ve oldW newW List.mem_cons_self
+  unfold currentWeight
+  rw [hd10]
+  simp only [Bool.false_eq_true, if_false]
+  cases hg : AL.get? s.map key with
+  | none => exact hup
+  | some cur =>
+    dsimp only
+    by_cases e : (cur.info == ve.info) = true
+    · rw [if_pos e]
+      have := b.mp key cur hg
+      rw [show cur.info = ve.info from by simpa using e] at this
+      exact this
+    · rw [if_neg e]; exact hup
+
+theorem getInfo_subCounters (s : SState) (n w j : Nat) :
+    getInfo (subCounters s n w) j = getInfo s j := by
+  unfold subCounters
+  dsimp only
+  split
+  · unfold SState.fail; split <;> rfl
+  · rfl
+
+theorem applyUpdate_weight {p : Params} (hd8 : p.q.d8 = false) (s : SState) (ve : VE)
+    (oldW nw : Nat) (i : Nat) :
+    (getInfo (applyUpdate p s ve oldW nw) i).weight =
+      if ve.info = i then nw else (getInfo s i).weight := by
+  unfold applyUpdate
+  simp only [hd8, Bool.false_eq_true, if_false]
+  rw [(moveToBackWoE_same _ _).weight, (moveToBackAoE_same _ _).weight, getInfo_withInfo]
+  by_cases e : ve.info = i
+  · rw [if_pos e, if_pos e]
+  · rw [if_neg e, if_neg e]
+    rw [getInfo_addCounters, getInfo_subCounters]
+
+theorem handleUpsert_room {p : Params} (hq : NoQuirks p) {c : Nat} (hcap : p.cap = some c)
+    {s : SState} {Q : List WOp} {key : Nat} {hash : UInt64} {ve : VE} {oldW newW : Nat}
+    {bl : List (Nat × Nat)} (g : G p s (WOp.upsert key hash ve oldW newW :: Q))
+    (b : BInv p s (WOp.upsert key hash ve oldW newW :: Q) bl) (hc : budTotal bl ≤ c) :
+    (handleUpsert p s key hash ve oldW newW).map = s.map ∧
+      BInv p (handleUpsert p s key hash ve oldW newW) Q bl := by
+  have hd8 : p.q.d8 = false := by rw [hq]
+  have hnw := currentWeight_le hq b
+  have hQ : ∀ op, op ∈ Q → op ∈ WOp.upsert key hash ve oldW newW :: Q :=
+    fun _ h => List.mem_cons_of_mem _ h
+  unfold handleUpsert
+  dsimp only
+  generalize currentWeight p s key ve newW = nw at hnw ⊢
+  have h0m : (withInfo s ve.info (fun i => { i with dirty := false })).map = s.map := rfl
+  have h0c : (withInfo s ve.info (fun i => { i with dirty := false })).cws = s.cws := rfl
+  have h0w : ∀ i, (getInfo (withInfo s ve.info (fun i => { i with dirty := false })) i).weight =
+      (getInfo s i).weight := by
+    intro i; rw [getInfo_withInfo]; by_cases e : ve.info = i
+    · rw [if_pos e, e]
+    · rw [if_neg e]
+  have h0a : (getInfo (withInfo s ve.info (fun i => { i with dirty := false })) ve.info).admitted =
+      (getInfo s ve.info).admitted := by
+    rw [getInfo_withInfo, if_pos rfl]
+  generalize withInfo s ve.info (fun i => { i with dirty := false }) = s1 at h0m h0c h0w h0a ⊢
+  by_cases c1 : (getInfo s1 ve.info).admitted = true
+  · rw [if_pos c1]
+    refine ⟨by rw [applyUpdate_map, h0m], b.of ?_ ?_ hQ⟩
+    · intro k v hk; rw [applyUpdate_map, h0m] at hk; exact hk
+    · intro i
+      rw [applyUpdate_weight hd8]
+      by_cases e : ve.info = i
+      · rw [if_pos e, ← e]; exact hnw
+      · rw [if_neg e, h0w]; exact b.wt i
+  · rw [if_neg c1]
+    by_cases c2 : (!p.q.d7 && !isCurrentEntry s1 key ve) = true
+    · rw [if_pos c2]
+      exact ⟨h0m, b.of (fun k v hk => by rw [h0m] at hk; exact hk)
+        (fun i => by rw [h0w]; exact b.wt i) hQ⟩
+    · rw [if_neg c2]
+      have hna : (getInfo s ve.info).admitted = false := by
+        rw [← h0a]
+        cases hx : (getInfo s1 ve.info).admitted with
+        | false => rfl
+        | true => exact absurd hx c1
+      have hb := cws_bound g.safe g.inv.wsum b hc hna
+      have c3 : hasEnoughCapacity p nw s1 = true := by
+        unfold hasEnoughCapacity
+        rw [hcap]
+        simp only [decide_eq_true_eq]
+        rw [h0c]; omega
+      rw [if_pos c3]
+      obtain ⟨a1, _, a3, _, a5, _⟩ := handleAdmit_spec hd8 s1 key hash ve nw
+      refine ⟨by rw [a1, h0m], b.of ?_ ?_ hQ⟩
+      · intro k v hk; rw [a1, h0m] at hk; exact hk
+      · intro i
+        by_cases e : i = ve.info
+        · rw [e, a5]; exact hnw
+        · rw [a3 i e, h0w]; exact b.wt i
+
+theorem applyWrite_room {p : Params} (hq : NoQuirks p) {c : Nat} (hcap : p.cap = some c)
+    {s : SState} {Q : List WOp} {bl : List (Nat × Nat)} (op : WOp) (g : G p s (op :: Q))
+    (b : BInv p s (op :: Q) bl) (hc : budTotal bl ≤ c) :
+    (applyWrite p s op).map = s.map ∧ BInv p (applyWrite p s op) Q bl := by
+  cases op with
+  | upsert key hash ve oldW newW => exact handleUpsert_room hq hcap g b hc
+  | remove key ve =>
+    obtain ⟨a1, _, _, a4, _⟩ := handleRemove_spec g.safe ve
+    refine ⟨a1, b.of ?_ ?_ (fun _ h => List.mem_cons_of_mem _ h)⟩
+    · intro k v hk
+      have : AL.get? (handleRemove s ve).map k = some v := hk
+      rw [a1] at this; exact this
+    · intro i
+      have : (getInfo (handleRemove s ve) i).weight = (getInfo s i).weight := a4 i
+      show (getInfo (handleRemove s ve) i).weight ≤ _
+      rw [this]; exact b.wt i
+
+theorem applyWrites_room {p : Params} (hq : NoQuirks p) {c : Nat} (hcap : p.cap = some c)
+    (ex : List WOp) {bl : List (Nat × Nat)} (hc : budTotal bl ≤ c) (n : Nat) :
+    ∀ (s : SState), G p s (s.writeQ ++ ex) → BInv p s (s.writeQ ++ ex) bl →
+      (applyWrites p n s).map = s.map ∧
+      BInv p (applyWrites p n s) ((applyWrites p n s).writeQ ++ ex) bl := by
+  induction n with
+  | zero => intro s _ b; exact ⟨rfl, b⟩
+  | succ n ih =>
+    intro s g b
+    unfold applyWrites
+    split
+    · exact ⟨rfl, b⟩
+    · rename_i op rest hw
+      rw [hw] at g b
+      have g0 : G p { s with writeQ := rest } (op :: (rest ++ ex)) :=
+        ⟨safe_setWriteQ g.safe rest, ⟨g.map.kn, g.map.bound⟩,
+          g.inv.same (same_of_eq rfl rfl rfl rfl rfl rfl)⟩
+      have b0 : BInv p { s with writeQ := rest } (op :: (rest ++ ex)) bl := ⟨b.wt, b.mp, b.up⟩
+      have g1 := applyWrite_g hq op g0
+      obtain ⟨m1, b1⟩ := applyWrite_room hq hcap op g0 b0 hc
+      have hq1 : (applyWrite p { s with writeQ := rest } op).writeQ = rest :=
+        (applyWrite_qframe p { s with writeQ := rest } op).writeQ
+      obtain ⟨m2, b2⟩ := ih _ (by rw [hq1]; exact g1) (by rw [hq1]; exact b1)
+      exact ⟨m2.trans m1, b2⟩
+
+/-- The loop of `Inner::sync` with room: the map is untouched and the budgets still cover. -/
+theorem syncLoop_room {P : Sketch → Prop} (L : SketchLaws P) {p : Params} (hq : NoQuirks p)
+    (hsm : SmallSketch p) {c : Nat} (hcap : p.cap = some c) (ex : List WOp)
+    {bl : List (Nat × Nat)} (hc : budTotal bl ≤ c) (n : Nat) :
+    ∀ (s : SState), RunInv P s → CInv p s (s.writeQ ++ ex) → BInv p s (s.writeQ ++ ex) bl →
+      (syncLoop p n s).map = s.map ∧
+      BInv p (syncLoop p n s) ((syncLoop p n s).writeQ ++ ex) bl := by
+  induction n with
+  | zero => intro s _ _ b; exact ⟨rfl, b⟩
+  | succ n ih =>
+    intro s h hci b
+    unfold syncLoop
+    dsimp only
+    have h1 : (RunInv P (if s.readQ.length > 0 then applyReads p s.readQ.length s else s) ∧
+        CInv p (if s.readQ.length > 0 then applyReads p s.readQ.length s else s)
+          ((if s.readQ.length > 0 then applyReads p s.readQ.length s else s).writeQ ++ ex)) ∧
+        (if s.readQ.length > 0 then applyReads p s.readQ.length s else s).map = s.map ∧
+        BInv p (if s.readQ.length > 0 then applyReads p s.readQ.length s else s)
+          ((if s.readQ.length > 0 then applyReads p s.readQ.length s else s).writeQ ++ ex) bl := by
+      split
+      · obtain ⟨a, b'⟩ := applyReads_inv L hq s.readQ.length s h.safe h.sk
+        refine ⟨⟨⟨a, h.map.frame (applyReads_frame hq _ _), b'⟩, ?_⟩,
+          (applyReads_same p _ s).map, ?_⟩
+        · rw [applyReads_writeQ]
+          exact hci.same (applyReads_same p _ s)
+        · rw [applyReads_writeQ]
+          exact b.same (applyReads_same p _ s)
+      · exact ⟨⟨h, hci⟩, rfl, b⟩
+    generalize (if s.readQ.length > 0 then applyReads p s.readQ.length s else s) = s1 at h1 ⊢
+    obtain ⟨h1, m1, b1⟩ := h1
+    have h2 : (RunInv P (if s1.writeQ.length > 0 then applyWrites p s1.writeQ.length s1 else s1) ∧
+        CInv p (if s1.writeQ.length > 0 then applyWrites p s1.writeQ.length s1 else s1)
+          ((if s1.writeQ.length > 0 then applyWrites p s1.writeQ.length s1 else s1).writeQ
+            ++ ex)) ∧
+        (if s1.writeQ.length > 0 then applyWrites p s1.writeQ.length s1 else s1).map = s1.map ∧
+        BInv p (if s1.writeQ.length > 0 then applyWrites p s1.writeQ.length s1 else s1)
+          ((if s1.writeQ.length > 0 then applyWrites p s1.writeQ.length s1 else s1).writeQ
+            ++ ex) bl := by
+      split
+      · have g0 : G p s1 (s1.writeQ ++ ex) := ⟨h1.1.safe, h1.1.map, h1.2⟩
+        have g := applyWrites_g hq ex s1.writeQ.length s1 g0
+        obtain ⟨m, b'⟩ := applyWrites_room hq hcap ex hc s1.writeQ.length s1 g0 b1
+        exact ⟨⟨⟨g.safe, g.map, h1.1.sk.same (applyWrites_sk _ _ _)⟩, g.inv⟩, m, b'⟩
+      · exact ⟨h1, rfl, b1⟩
+    generalize (if s1.writeQ.length > 0 then applyWrites p s1.writeQ.length s1 else s1) = s2
+      at h2 ⊢
+    obtain ⟨h2, m2, b2⟩ := h2
+    have h3 : (RunInv P (if shouldEnableSketch p s2 = true then enableSketch p s2 else s2) ∧
+        CInv p (if shouldEnableSketch p s2 = true then enableSketch p s2 else s2)
+          ((if shouldEnableSketch p s2 = true then enableSketch p s2 else s2).writeQ ++ ex)) ∧
+        (if shouldEnableSketch p s2 = true then enableSketch p s2 else s2).map = s2.map ∧
+        BInv p (if shouldEnableSketch p s2 = true then enableSketch p s2 else s2)
+          ((if shouldEnableSketch p s2 = true then enableSketch p s2 else s2).writeQ ++ ex) bl := by
+      split
+      · rename_i hen
+        refine ⟨⟨⟨enableSketch_safe p h2.1.safe, h2.1.map.frame0 (enableSketch_frame0 _ _),
+          enableSketch_skOK L hsm h2.1.sk hen⟩, ?_⟩, (enableSketch_same p s2).map, ?_⟩
+        · rw [(enableSketch_qframe p s2).writeQ]
+          exact h2.2.same (enableSketch_same p s2)
+        · rw [(enableSketch_qframe p s2).writeQ]
+          exact b2.same (enableSketch_same p s2)
+      · exact ⟨h2, rfl, b2⟩
+    generalize (if shouldEnableSketch p s2 = true then enableSketch p s2 else s2) = s3 at h3 ⊢
+    obtain ⟨h3, m3, b3⟩ := h3
+    have hm : s3.map = s.map := m3.trans (m2.trans m1)
+    split
+    · obtain ⟨m4, b4⟩ := ih _ h3.1 h3.2 b3
+      exact ⟨m4.trans hm, b4⟩
+    · exact ⟨hm, b3⟩
+
+/-! ### expiry eviction does not touch the weights -/
+
+def WSame (s s' : SState) : Prop := ∀ i, (getInfo s' i).weight = (getInfo s i).weight
+
+theorem WSame.refl (s : SState) : WSame s s := fun _ => rfl
+
+theorem WSame.trans {a b c : SState} (h1 : WSame a b) (h2 : WSame b c) : WSame a c :=
+  fun i => (h2 i).trans (h1 i)
+
+theorem wsame_of_same {s s' : SState} (h : Same s s') : WSame s s' := h.weight
+
+theorem getInfo_fail (s : SState) (f : Fault) (j : Nat) : getInfo (s.fail f) j = getInfo s j := by
+  unfold SState.fail; split <;> rfl
+
+theorem unlinkAo_wsame (s : SState) (i : Nat) : WSame s (unlinkAo s i) := by
+  intro j
+  unfold unlinkAo
+  split
+  · rfl
+  · dsimp only
+    have h : (getInfo (withInfo s i (fun x => { x with ao := none })) j).weight =
+        (getInfo s j).weight := by
+      rw [getInfo_withInfo]
+      by_cases e : i = j
+      · rw [if_pos e, e]
+      · rw [if_neg e]
+    split
+    · exact h
+    · rw [getInfo_fail]; exact h
+
+theorem handleRemove_wsame (s : SState) (ve : VE) : WSame s (handleRemove s ve) := by
+  intro j
+  unfold handleRemove
+  dsimp only
+  split
+  · rw [((unlinkWo_quiet _ _).2.2.2.2.1 j).2.1, unlinkAo_wsame, getInfo_subCounters,
+      getInfo_withInfo]
+    by_cases e : ve.info = j
+    · rw [if_pos e, e]
+    · rw [if_neg e]
+  · rw [getInfo_withInfo]
+    by_cases e : ve.info = j
+    · rw [if_pos e, e]
+    · rw [if_neg e]
+
+theorem evict_wsame (s : SState) (k : Nat) (ve : VE) :
+    WSame s (handleRemove { s with map := AL.erase s.map k } ve) :=
+  handleRemove_wsame { s with map := AL.erase s.map k } ve
+
+theorem removeExpiredAo_wsame (p : Params) (n : Nat) :
+    ∀ (s : SState), WSame s (removeExpiredAo p n s) := by
+  induction n with
+  | zero => intro s; exact WSame.refl s
+  | succ n ih =>
+    intro s
+    unfold removeExpiredAo
+    split
+    · exact WSame.refl s
+    · split
+      · dsimp only
+        split
+        · exact (evict_wsame s _ _).trans (ih _)
+        · split
+          · exact (wsame_of_same (trySkipUpdated_same s _)).trans (ih _)
+          · exact wsame_of_same (trySkipUpdated_same s _)
+      · exact WSame.refl s
+
+theorem removeExpiredWo_wsame (p : Params) (n : Nat) :
+    ∀ (s : SState), WSame s (removeExpiredWo p n s) := by
+  induction n with
+  | zero => intro s; exact WSame.refl s
+  | succ n ih =>
+    intro s
+    unfold removeExpiredWo
+    split
+    · exact WSame.refl s
+    · split
+      · dsimp only
+        split
+        · exact (evict_wsame s _ _).trans (ih _)
+        · split
+          · split
+            · exact (wsame_of_same ((moveToBackAoE_same _ _).trans (moveToBackWoE_same _ _))).trans (ih _)
+            · exact WSame.refl s
+          · exact (wsame_of_same (moveNodeToBackWo_same _ _)).trans (ih _)
+      · exact WSame.refl s
+
+theorem evictExpired_wsame (p : Params) (s : SState) : WSame s (evictExpired p s) := by
+  unfold evictExpired
+  dsimp only
+  split
+  · split
+    · exact (removeExpiredWo_wsame _ _ _).trans (removeExpiredAo_wsame _ _ _)
+    · exact removeExpiredWo_wsame _ _ _
+  · split
+    · exact removeExpiredAo_wsame _ _ _
+    · exact WSame.refl s
+
+/-! ### a maintenance run with room -/
+
+theorem syncRun_room {P : Sketch → Prop} (L : SketchLaws P) {p : Params} (hq : NoQuirks p)
+    (hsm : SmallSketch p) {c : Nat} (hcap : p.cap = some c) {s : SState} (ex : List WOp)
+    {bl : List (Nat × Nat)} (hc : budTotal bl ≤ c) (h : TopInv P s)
+    (hct : CTop p s (s.writeQ ++ ex)) (b : BInv p s (s.writeQ ++ ex) bl) :
+    (∀ k ve, AL.get? s.map k = some ve →
+      AL.get? (syncRun p s).map k = some ve ∨
+        isExpiredInfo p (syncRun p s) (getInfo (syncRun p s) ve.info) (syncRun p s).now = true) ∧
+    BInv p (syncRun p s) ex bl := by
+  unfold syncRun
+  dsimp only
+  have h0 : RunInv P { s with cec := s.ec, cws := s.ws } :=
+    ⟨⟨⟨h.nodes.toNodesCore.congr (fun _ => rfl) (fun _ => rfl) (fun _ => rfl) (List.Perm.refl _)
+        (List.Perm.refl _) (Nat.le_refl _), h.nodes.count⟩, h.nofault⟩,
+     ⟨h.map.kn, h.map.bound⟩, ⟨h.sk.sk, h.sk.skOff⟩⟩
+  have b0 : BInv p { s with cec := s.ec, cws := s.ws }
+      (({ s with cec := s.ec, cws := s.ws } : SState).writeQ ++ ex) bl := ⟨b.wt, b.mp, b.up⟩
+  have h1 := syncLoop_g L hq hsm ex (Gen.MAX_SYNC_REPEATS + 1) _ h0 hct
+  have r1 := syncLoop_room L hq hsm hcap ex hc (Gen.MAX_SYNC_REPEATS + 1) _ h0 hct b0
+  have hq1 := (syncLoop_queues p Gen.MAX_SYNC_REPEATS { s with cec := s.ec, cws := s.ws }).1
+  generalize syncLoop p (Gen.MAX_SYNC_REPEATS + 1) { s with cec := s.ec, cws := s.ws } = s1
+    at h1 r1 hq1 ⊢
+  rw [hq1, List.nil_append] at h1 r1
+  obtain ⟨m1, b1⟩ := r1
+  have g1 : G p s1 ex := ⟨h1.1.safe, h1.1.map, h1.2⟩
+  have g2 : G p (if (p.hasExpiry || s1.va.isSome) = true then evictExpired p s1 else s1) ex ∧
+      Kept p s1 (if (p.hasExpiry || s1.va.isSome) = true then evictExpired p s1 else s1) ∧
+      Frame0 s1 (if (p.hasExpiry || s1.va.isSome) = true then evictExpired p s1 else s1) ∧
+      WSame s1 (if (p.hasExpiry || s1.va.isSome) = true then evictExpired p s1 else s1) := by
+    split
+    · exact ⟨evictExpired_g g1, evictExpired_kept _ _, evictExpired_frame0 _ _,
+        evictExpired_wsame _ _⟩
+    · exact ⟨g1, Kept.of_map_eq rfl, Frame0.refl _, WSame.refl _⟩
+  generalize (if (p.hasExpiry || s1.va.isSome) = true then evictExpired p s1 else s1) = s2
+    at g2 ⊢
+  obtain ⟨g2, k2, f2, w2⟩ := g2
+  have b2 : BInv p s2 ex bl :=
+    b1.of (fun k ve hk => f2.mapSub g1.map.kn k ve hk) (fun i => by rw [w2 i]; exact b1.wt i)
+      (fun _ hh => hh)
+  have hle := cws_le g2.safe g2.inv.wsum b2 hc
+  have hw : weightsToEvict p s2 = 0 := by
+    unfold weightsToEvict; rw [hcap]; simp only; omega
+  rw [if_neg (by rw [hw]; exact Nat.lt_irrefl 0)]
+  refine ⟨?_, ⟨b2.wt, b2.mp, b2.up⟩⟩
+  intro k ve hk
+  have hk1 : AL.get? s1.map k = some ve := by rw [m1]; exact hk
+  rcases k2 g1.map.kn k ve hk1 with hh | hh
+  · exact Or.inl hh
+  · right
+    have := isExpiredInfo_frame0 p f2 ve.info
+    show isExpiredInfo p s2 (getInfo s2 ve.info) s2.now = true
+    rw [this]; exact hh
+
+theorem syncRun_frameX_room {P : Sketch → Prop} (L : SketchLaws P) {p : Params} (hq : NoQuirks p)
+    (hsm : SmallSketch p) {c : Nat} (hcap : p.cap = some c) {s : SState} (ex : List WOp)
+    {bl : List (Nat × Nat)} (hc : budTotal bl ≤ c) (h : TopInv P s)
+    (hct : CTop p s (s.writeQ ++ ex)) (b : BInv p s (s.writeQ ++ ex) bl) :
+    FrameX p s (syncRun p s) ∧ BInv p (syncRun p s) ex bl := by
+  obtain ⟨h1, h2⟩ := syncRun_room L hq hsm hcap ex hc h hct b
+  refine ⟨⟨syncRun_frame hq s, (syncRun_frameA hq s).applied, fun _ k ve hk => ?_⟩, h2⟩
+  rcases h1 k ve hk with hh | hh
+  · exact Or.inl hh
+  · exact Or.inr ⟨syncRun_readQ p s, hh⟩
+
+/-! ### the mid-operation states are good states (after `insert_t` / `invalidate_t`) -/
+
+theorem insertMid_t {p : Params} (hq : NoQuirks p) {s : SState}
+    (h : TInv p s []) (k v : Nat) :
+    TInv p (insertMid p s k v).1 [(insertMid p s k v).2] := by
+  have hd8 : p.q.d8 = false := by rw [hq]
+  have hc := h.cinv
+  have hnc : NodesCore { s with cec := s.ec, cws := s.ws } :=
+    h.top.nodes.toNodesCore.congr (fun _ => rfl) (fun _ => rfl) (fun _ => rfl)
+      (List.Perm.refl _) (List.Perm.refl _) (Nat.le_refl _)
+  have hmo : MapOK { s with cec := s.ec, cws := s.ws } := ⟨h.top.map.kn, h.top.map.bound⟩
+  unfold insertMid
+  cases hg : AL.get? s.map k with
+  | some old =>
+    dsimp only
+    have hold := h.top.map.bound k old hg
+    refine ⟨?_, qinv_of_eq h.q rfl rfl rfl, ?_⟩
+    · have h1 : TopInv Sketch.Good (refreshInfo p s old.info s.now (p.weigh k v)) :=
+        h.top.withInfo _ _ rfl rfl rfl
+      have hm1 : (refreshInfo p s old.info s.now (p.weigh k v)).map = s.map := rfl
+      have hn1 : (refreshInfo p s old.info s.now (p.weigh k v)).nextId = s.nextId := rfl
+      generalize refreshInfo p s old.info s.now (p.weigh k v) = s1 at h1 hm1 hn1 ⊢
+      refine ⟨⟨⟨h1.nodes.toNodesCore.congr (fun _ => rfl) (fun _ => rfl) (fun _ => rfl)
+        (List.Perm.refl _) (List.Perm.refl _) (Nat.le_succ _), h1.nodes.count⟩, ?_,
+        ⟨h1.sk.sk, h1.sk.skOff⟩⟩, h1.nofault⟩
+      exact mapOK_put h1.map k _ (s1.nextId + 1) (by simp only; rw [hn1]; omega) (Nat.le_succ _) _
+        rfl rfl rfl
+    · refine CInv.put hc hnc hmo k (p.hash k)
+        { id := s.nextId, val := v, info := old.info, slot := old.slot }
+        (getInfo s old.info).weight (p.weigh k v) rfl (Nat.le_succ _) ?_ ?_ ?_ ?_ ?_
+        (fun _ => ⟨k, old, hg, rfl⟩) rfl rfl rfl
+      · intro j _
+        show (getInfo (refreshInfo p s old.info s.now (p.weigh k v)) j).key = (getInfo s j).key ∧
+          (getInfo (refreshInfo p s old.info s.now (p.weigh k v)) j).weight = (getInfo s j).weight ∧
+          (getInfo (refreshInfo p s old.info s.now (p.weigh k v)) j).admitted
+            = (getInfo s j).admitted ∧
+          (j ≠ old.info → (getInfo (refreshInfo p s old.info s.now (p.weigh k v)) j).dirty = true →
+            (getInfo s j).dirty = true)
+        unfold refreshInfo
+        rw [getInfo_withInfo]
+        by_cases e : old.info = j
+        · rw [if_pos e, ← e]
+          simp only [hd8, Bool.false_eq_true, if_false, true_and]
+          exact fun hne => absurd rfl hne
+        · rw [if_neg e]; exact ⟨rfl, rfl, rfl, fun _ hd => hd⟩
+      · show (getInfo (refreshInfo p s old.info s.now (p.weigh k v)) old.info).key = k
+        unfold refreshInfo
+        rw [getInfo_withInfo, if_pos rfl]
+        exact hc.mapKey k old hg
+      · exact ⟨Nat.lt_succ_of_lt hold, Nat.lt_succ_self _,
+          Nat.lt_succ_of_lt (hc.mapId k old hg).2, Nat.le_refl _⟩
+      · intro k' c hk'
+        constructor
+        · intro e; exact hc.slotInj k' k c old hk' hg e
+        · intro e
+          rw [e] at hk'
+          have : old = c := Option.some.inj (hg.symm.trans hk')
+          rw [this]
+      · intro k' c hk'
+        constructor
+        · intro e
+          have a1 := hc.mapKey k' c hk'
+          have a2 := hc.mapKey k old hg
+          rw [e] at a1
+          exact a1.symm.trans a2
+        · intro e
+          rw [e] at hk'
+          have : old = c := Option.some.inj (hg.symm.trans hk')
+          rw [this]
+  | none =>
+    dsimp only
+    have hna := h.top.nodes.infoFresh s.nextId (Nat.le_refl _)
+    have hao := h.top.nodes.toNodesCore.notAdm_ao hna
+    have hwo := h.top.nodes.toNodesCore.notAdm_wo hna
+    refine ⟨?_, qinv_of_eq h.q rfl rfl rfl, ?_⟩
+    · refine ⟨⟨⟨h.top.nodes.toNodesCore.congr ?_ ?_ ?_ (List.Perm.refl _) (List.Perm.refl _)
+        (Nat.le_add_right _ 2), h.top.nodes.count⟩, ?_, ⟨h.top.sk.sk, h.top.sk.skOff⟩⟩,
+        h.top.nofault⟩
+      · intro j
+        simp only [getInfo, AL.get?_put]
+        by_cases e : s.nextId = j
+        · subst e; simp only [if_true, Option.getD_some]; exact hao.symm
+        · simp only [e, if_false]
+      · intro j
+        simp only [getInfo, AL.get?_put]
+        by_cases e : s.nextId = j
+        · subst e; simp only [if_true, Option.getD_some]; exact hwo.symm
+        · simp only [e, if_false]
+      · intro j
+        simp only [getInfo, AL.get?_put]
+        by_cases e : s.nextId = j
+        · subst e; simp only [if_true, Option.getD_some]; exact hna.symm
+        · simp only [e, if_false]
+      · exact mapOK_put h.top.map k _ (s.nextId + 2) (by simp only; omega)
+          (Nat.le_add_right _ 2) _ rfl rfl rfl
+    · refine CInv.put hc hnc hmo k (p.hash k)
+        { id := s.nextId + 1, val := v, info := s.nextId, slot := s.nextId + 1 }
+        0 (p.weigh k v) rfl (Nat.le_add_right _ 2) ?_ ?_ ?_ ?_ ?_ ?_ rfl rfl rfl
+      · intro j hj
+        have e : ¬ s.nextId = j := fun e => Nat.lt_irrefl _ (e ▸ hj)
+        simp only [getInfo, AL.get?_put, if_neg e, true_and]
+        exact fun _ hd => hd
+      · simp only [getInfo, AL.get?_put, if_true, Option.getD_some]
+      · refine ⟨?_, ?_, ?_, ?_⟩ <;> simp only <;> omega
+      · intro k' c hk'
+        constructor
+        · intro e
+          have := (hc.mapId k' c hk').2
+          simp only at e this
+          omega
+        · intro e
+          rw [e] at hk'
+          rw [hg] at hk'; cases hk'
+      · intro k' c hk'
+        constructor
+        · intro e
+          have := hmo.bound k' c hk'
+          simp only at e this
+          omega
+        · intro e
+          rw [e] at hk'
+          rw [hg] at hk'; cases hk'
+      · intro hlt
+        exact absurd hlt (Nat.lt_irrefl _)
+
+theorem invalidateMid_t {p : Params} {s : SState} (h : TInv p s []) {k : Nat} {ve : VE}
+    (hg : AL.get? s.map k = some ve) :
+    TInv p { s with map := AL.erase s.map k } [WOp.remove k ve] := by
+  refine ⟨?_, qinv_of_eq h.q rfl rfl rfl, ?_⟩
+  · exact ⟨⟨⟨h.top.nodes.toNodesCore.congr (fun _ => rfl) (fun _ => rfl) (fun _ => rfl)
+      (List.Perm.refl _) (List.Perm.refl _) (Nat.le_refl _), h.top.nodes.count⟩,
+      h.top.map.frame0 (frame0_erase s k), ⟨h.top.sk.sk, h.top.sk.skOff⟩⟩, h.top.nofault⟩
+  · exact CInv.invalidate (s := { s with cec := s.ec, cws := s.ws }) h.cinv
+      ⟨h.top.map.kn, h.top.map.bound⟩ hg
+
+/-! ### housekeeping with room -/
+
+theorem trySync_room {p : Params} (hq : NoQuirks p) (hsm : SmallSketch p) {c : Nat}
+    (hcap : p.cap = some c) {s : SState} {ex : List WOp} {bl : List (Nat × Nat)}
+    (hc : budTotal bl ≤ c) (h : TInv p s ex) (b : BInv p s (s.writeQ ++ ex) bl) :
+    SyncOk p s ∧ BInv p (trySync p s) ((trySync p s).writeQ ++ ex) bl := by
+  have h0 : TopInv Sketch.Good (armed s) := h.top.of_eq rfl rfl rfl rfl rfl rfl rfl rfl rfl
+  have c0 : CTop p (armed s) ((armed s).writeQ ++ ex) := h.c.of_eq rfl rfl rfl rfl rfl rfl
+  have b0 : BInv p (armed s) ((armed s).writeQ ++ ex) bl := ⟨b.wt, b.mp, b.up⟩
+  obtain ⟨fx, b1⟩ := syncRun_frameX_room sketchLaws hq hsm hcap ex hc h0 c0 b0
+  refine ⟨fx, ?_⟩
+  have hs := trySync_spec p s h.q.running
+  rw [hs.writeQ, List.nil_append]
+  unfold trySync
+  rw [if_neg (by rw [h.q.running]; exact Bool.false_ne_true)]
+  exact ⟨b1.wt, b1.mp, b1.up⟩
+
+theorem housekeepW_room {p : Params} (hq : NoQuirks p) (hsm : SmallSketch p) {c : Nat}
+    (hcap : p.cap = some c) {s : SState} {ex : List WOp} {bl : List (Nat × Nat)}
+    (hc : budTotal bl ≤ c) (h : TInv p s ex) (b : BInv p s (s.writeQ ++ ex) bl) :
+    SyncOk p s ∧ BInv p (housekeepW p s) ((housekeepW p s).writeQ ++ ex) bl := by
+  obtain ⟨h1, h2⟩ := trySync_room hq hsm hcap hc h b
+  refine ⟨h1, ?_⟩
+  unfold housekeepW
+  split
+  · exact h2
+  · exact b
+
+theorem housekeepR_room {p : Params} (hq : NoQuirks p) (hsm : SmallSketch p) {c : Nat}
+    (hcap : p.cap = some c) {s : SState} {ex : List WOp} {bl : List (Nat × Nat)}
+    (hc : budTotal bl ≤ c) (h : TInv p s ex) (b : BInv p s (s.writeQ ++ ex) bl) :
+    SyncOk p s ∧ BInv p (housekeepR p s) ((housekeepR p s).writeQ ++ ex) bl := by
+  obtain ⟨h1, h2⟩ := trySync_room hq hsm hcap hc h b
+  refine ⟨h1, ?_⟩
+  unfold housekeepR
+  split
+  · exact h2
+  · exact b
+
+/-! ### the API calls with room -/
+
+theorem insertMid_binv {p : Params} (hq : NoQuirks p) {s : SState}
+    {bl : List (Nat × Nat)} (b : BInv p s s.writeQ bl) (k v : Nat) :
+    ∃ bl', BInv p (insertMid p s k v).1
+        ((insertMid p s k v).1.writeQ ++ [(insertMid p s k v).2]) bl' ∧
+      budTotal bl' ≤ budTotal bl + p.weigh k v := by
+  have hd8 : p.q.d8 = false := by rw [hq]
+  unfold insertMid
+  cases hg : AL.get? s.map k with
+  | some old =>
+    dsimp only
+    refine ⟨charge bl old.info (p.weigh k v), ⟨?_, ?_, ?_⟩, budTotal_charge _ _ _⟩
+    · intro i
+      have : (getInfo (refreshInfo p s old.info s.now (p.weigh k v)) i).weight =
+          (getInfo s i).weight := by
+        unfold refreshInfo
+        rw [getInfo_withInfo]
+        by_cases e : old.info = i
+        · rw [if_pos e, ← e]; simp only [hd8, Bool.false_eq_true, if_false]
+        · rw [if_neg e]
+      show (getInfo (refreshInfo p s old.info s.now (p.weigh k v)) i).weight ≤ _
+      rw [this]
+      exact Nat.le_trans (b.wt i) (budOf_charge_ge _ _ _ _)
+    · intro k' ve' hk'
+      have hk0 : AL.get? (AL.put s.map k
+          { id := s.nextId, val := v, info := old.info, slot := old.slot }) k' = some ve' := hk'
+      rw [AL.get?_put] at hk0
+      by_cases e : k = k'
+      · simp only [e, if_true, Option.some.injEq] at hk0
+        subst hk0; subst e
+        rw [budOf_charge, if_pos rfl]
+        exact Nat.le_add_left _ _
+      · simp only [e, if_false] at hk0
+        exact Nat.le_trans (b.mp k' ve' hk0) (budOf_charge_ge _ _ _ _)
+    · intro k' h' ve' o w hin
+      rcases List.mem_append.mp hin with hin | hin
+      · exact Nat.le_trans (b.up k' h' ve' o w hin) (budOf_charge_ge _ _ _ _)
+      · simp only [List.mem_singleton, WOp.upsert.injEq] at hin
+        obtain ⟨_, _, rfl, _, rfl⟩ := hin
+        rw [budOf_charge, if_pos rfl]
+        exact Nat.le_add_left _ _
+  | none =>
+    dsimp only
+    refine ⟨charge bl s.nextId (p.weigh k v), ⟨?_, ?_, ?_⟩, budTotal_charge _ _ _⟩
+    · intro i
+      simp only [getInfo, AL.get?_put]
+      by_cases e : s.nextId = i
+      · subst e
+        simp only [if_true, Option.getD_some]
+        rw [budOf_charge, if_pos rfl]
+        exact Nat.le_add_left _ _
+      · simp only [e, if_false]
+        exact Nat.le_trans (b.wt i) (budOf_charge_ge _ _ _ _)
+    · intro k' ve' hk'
+      have hk0 : AL.get? (AL.put s.map k
+          { id := s.nextId + 1, val := v, info := s.nextId, slot := s.nextId + 1 }) k'
+            = some ve' := hk'
+      rw [AL.get?_put] at hk0
+      by_cases e : k = k'
+      · simp only [e, if_true, Option.some.injEq] at hk0
+        subst hk0; subst e
+        rw [budOf_charge, if_pos rfl]
+        exact Nat.le_add_left _ _
+      · simp only [e, if_false] at hk0
+        exact Nat.le_trans (b.mp k' ve' hk0) (budOf_charge_ge _ _ _ _)
+    · intro k' h' ve' o w hin
+      rcases List.mem_append.mp hin with hin | hin
+      · exact Nat.le_trans (b.up k' h' ve' o w hin) (budOf_charge_ge _ _ _ _)
+      · simp only [List.mem_singleton, WOp.upsert.injEq] at hin
+        obtain ⟨_, _, rfl, _, rfl⟩ := hin
+        rw [budOf_charge, if_pos rfl]
+        exact Nat.le_add_left _ _
+
+theorem insert_room {p : Params} (hq : NoQuirks p) (hsm : SmallSketch p) {c : Nat}
+    (hcap : p.cap = some c) {s : SState} (h : TInv p s []) {bl : List (Nat × Nat)}
+    (b : BInv p s s.writeQ bl) (k v : Nat) (hc : budTotal bl + p.weigh k v ≤ c) :
+    SyncOk p (insertMid p s k v).1 ∧
+    ∃ bl', BInv p (insert p s k v) (insert p s k v).writeQ bl' ∧
+      budTotal bl' ≤ budTotal bl + p.weigh k v := by
+  obtain ⟨bl', b0, hle⟩ := insertMid_binv hq b k v
+  have t0 := insertMid_t hq h k v
+  obtain ⟨h1, h2⟩ := housekeepW_room hq hsm hcap (Nat.le_trans hle hc) t0 b0
+  refine ⟨h1, bl', ?_, hle⟩
+  rw [insert_eq_mid, scheduleWriteOp3_enqueues p t0.q]
+  exact ⟨h2.wt, h2.mp, h2.up⟩
+
+theorem invalidate_room {p : Params} (hq : NoQuirks p) (hsm : SmallSketch p) {c : Nat}
+    (hcap : p.cap = some c) {s : SState} (h : TInv p s []) {bl : List (Nat × Nat)}
+    (b : BInv p s s.writeQ bl) (k : Nat) (hc : budTotal bl ≤ c) :
+    (∀ ve, AL.get? s.map k = some ve → SyncOk p { s with map := AL.erase s.map k }) ∧
+    BInv p (invalidate p s k) (invalidate p s k).writeQ bl := by
+  unfold invalidate
+  cases hg : AL.get? s.map k with
+  | none => exact ⟨fun ve hve => (by cases hve), b⟩
+  | some ve =>
+    dsimp only
+    have t0 := invalidateMid_t h hg
+    have b0 : BInv p { s with map := AL.erase s.map k }
+        (({ s with map := AL.erase s.map k } : SState).writeQ ++ [WOp.remove k ve]) bl := by
+      refine ⟨b.wt, ?_, ?_⟩
+      · intro k' ve' hk'
+        exact b.mp k' ve' ((frame0_erase s k).mapSub h.top.map.kn k' ve' hk')
+      · intro k' h' ve' o w hin
+        rcases List.mem_append.mp hin with hin | hin
+        · exact b.up k' h' ve' o w hin
+        · simp only [List.mem_singleton] at hin
+          cases hin
+    obtain ⟨h1, h2⟩ := housekeepW_room hq hsm hcap hc t0 b0
+    refine ⟨fun _ _ => h1, ?_⟩
+    rw [scheduleWriteOp3_enqueues p t0.q]
+    exact ⟨h2.wt, h2.mp, h2.up⟩
+
+theorem get_state (p : Params) (s : SState) (k : Nat) :
+    ∃ op, (get p s k).1 = recordReadOp p s op := by
+  unfold get
+  dsimp only
+  split
+  · exact ⟨_, rfl⟩
+  · split
+    · exact ⟨_, rfl⟩
+    · exact ⟨_, rfl⟩
+
+theorem get_room {p : Params} (hq : NoQuirks p) (hsm : SmallSketch p) {c : Nat}
+    (hcap : p.cap = some c) {s : SState} (h : TInv p s []) {bl : List (Nat × Nat)}
+    (b : BInv p s s.writeQ bl) (k : Nat) (hc : budTotal bl ≤ c) :
+    SyncOk p s ∧ BInv p (get p s k).1 (get p s k).1.writeQ bl := by
+  have b0 : BInv p s (s.writeQ ++ []) bl := by rw [List.append_nil]; exact b
+  obtain ⟨h1, h2⟩ := housekeepR_room hq hsm hcap hc h b0
+  rw [List.append_nil] at h2
+  refine ⟨h1, ?_⟩
+  obtain ⟨op, hop⟩ := get_state p s k
+  rw [hop, recordReadOp_enqueues p h.q]
+  exact ⟨h2.wt, h2.mp, h2.up⟩
+
+theorem sync_room {p : Params} (hq : NoQuirks p) (hsm : SmallSketch p) {c : Nat}
+    (hcap : p.cap = some c) {s : SState} (h : TInv p s []) {bl : List (Nat × Nat)}
+    (b : BInv p s s.writeQ bl) (hc : budTotal bl ≤ c) :
+    FrameX p s (syncRun p s) ∧ BInv p (syncRun p s) (syncRun p s).writeQ bl := by
+  have b0 : BInv p s (s.writeQ ++ []) bl := by rw [List.append_nil]; exact b
+  obtain ⟨h1, h2⟩ := syncRun_frameX_room sketchLaws hq hsm hcap [] hc h.top h.c b0
+  refine ⟨h1, ?_⟩
+  rw [syncRun_writeQ]
+  exact h2
+
+/-! ### the invariant of the reachable states when the capacity is never reached -/
+
+/-- The state after the call, when no fault is pending. -/
+def stepState (p : Params) (s : SState) : Op → SState
+  | .ins k v => insert p s k v
+  | .get k => (get p s k).1
+  | .inv k => invalidate p s k
+  | .invAll => invalidateAll s
+  | .sync => syncRun p s
+  | .adv d => { s with now := s.now + d }
+  | _ => s
+
+theorem step_fst {p : Params} {s : SState} (hf : s.fault = none) (op : Op) :
+    (step p s op).1 = stepState p s op := by
+  unfold step
+  rw [if_neg (by rw [hf]; exact Bool.false_ne_true)]
+  cases op <;> (dsimp only [stepState]; split <;> rfl)
+
+/-- Reachable states of a history whose inserts fit into the capacity: the invariants of
+`SyncCounters`, and budgets that cover every weight in the state while the capacity still has
+room for everything the rest of the history inserts. -/
+structure RoomInv (p : Params) (c : Nat) (s : SState) (rest : List Op) : Prop where
+  t : TInv p s []
+  bud : ∃ bl, BInv p s s.writeQ bl ∧ budTotal bl + Unsync.totalIns p rest ≤ c
+
+theorem roomInv_init (p : Params) (c : Nat) (h : List Op) (hle : Unsync.totalIns p h ≤ c) :
+    RoomInv p c {} h :=
+  ⟨init_t p, [], ⟨fun i => Nat.le_refl _, fun k ve hk => by simp at hk,
+    fun k h' ve o w hin => by cases hin⟩, by simpa [budTotal] using hle⟩
+
+theorem roomInv_ok {p : Params} (hq : NoQuirks p) (hsm : SmallSketch p) {c : Nat}
+    (hcap : p.cap = some c) {s : SState} {op : Op} {rest : List Op}
+    (h : RoomInv p c s (op :: rest)) : MaintOk p s op := by
+  obtain ⟨bl, b, hle⟩ := h.bud
+  have hle' : budTotal bl + Unsync.insW p op + Unsync.totalIns p rest ≤ c := by
+    have : Unsync.totalIns p (op :: rest) = Unsync.insW p op + Unsync.totalIns p rest := rfl
+    omega
+  cases op with
+  | ins k v =>
+    exact (insert_room hq hsm hcap h.t b k v (by simp only [Unsync.insW] at hle'; omega)).1
+  | get k => exact (get_room hq hsm hcap h.t b k (by omega)).1
+  | inv k => exact (invalidate_room hq hsm hcap h.t b k (by omega)).1
+  | sync => exact (sync_room hq hsm hcap h.t b (by omega)).1
+  | has k => exact True.intro
+  | iter => exact True.intro
+  | invAll => exact True.intro
+  | invIf pr => exact True.intro
+  | adv d => exact True.intro
+  | snap => exact True.intro
+  | freq k => exact True.intro
+
+theorem roomInv_step {p : Params} (hq : NoQuirks p) (hsm : SmallSketch p) {c : Nat}
+    (hcap : p.cap = some c) {s : SState} {op : Op} {rest : List Op}
+    (h : RoomInv p c s (op :: rest)) : RoomInv p c (step p s op).1 rest := by
+  refine ⟨step_t hq hsm h.t op, ?_⟩
+  obtain ⟨bl, b, hle⟩ := h.bud
+  have hle' : budTotal bl + Unsync.insW p op + Unsync.totalIns p rest ≤ c := by
+    have : Unsync.totalIns p (op :: rest) = Unsync.insW p op + Unsync.totalIns p rest := rfl
+    omega
+  rw [step_fst h.t.top.nofault]
+  cases op with
+  | ins k v =>
+    obtain ⟨_, bl', b', hb⟩ :=
+      insert_room hq hsm hcap h.t b k v (by simp only [Unsync.insW] at hle'; omega)
+    exact ⟨bl', b', by simp only [Unsync.insW] at hle'; omega⟩
+  | get k => exact ⟨bl, (get_room hq hsm hcap h.t b k (by omega)).2, by omega⟩
+  | inv k => exact ⟨bl, (invalidate_room hq hsm hcap h.t b k (by omega)).2, by omega⟩
+  | sync => exact ⟨bl, (sync_room hq hsm hcap h.t b (by omega)).2, by omega⟩
+  | has k => exact ⟨bl, b, by omega⟩
+  | iter => exact ⟨bl, b, by omega⟩
+  | invAll => exact ⟨bl, ⟨b.wt, b.mp, b.up⟩, by omega⟩
+  | invIf pr => exact ⟨bl, b, by omega⟩
+  | adv d => exact ⟨bl, ⟨b.wt, b.mp, b.up⟩, by omega⟩
+  | snap => exact ⟨bl, b, by omega⟩
+  | freq k => exact ⟨bl, b, by omega⟩
+
+theorem totalInserted_run_sync (p : Params) : ∀ (h : List Op) (s : SState),
+    totalInserted p.weigh (run p s h) = Unsync.totalIns p h := by
+  intro h
+  induction h with
+  | nil => intro s; rfl
+  | cons op rest ih =>
+    intro s
+    have hrun : run p s (op :: rest) = (op, (step p s op).2) :: run p (step p s op).1 rest := rfl
+    rw [hrun]
+    cases op <;> simp [totalInserted, Unsync.totalIns, Unsync.insW, ih]
 
 end Sync
 end MiniMoka
